@@ -54,6 +54,38 @@ these families carries every plan its process had executed:
 The generic digest of process-wide state also covers what module-level
 INSTANCES of the package's classes hold (the units database, the schema
 repository).
+
+Added after the fifth wave (domains and the environment model in
+mc/domains/w5_c15.py), plain exhaustive products again:
+
+* edit programs: the world of the merge programs (two loaded libraries and a
+  receiver made with the constructor); all sequences of 1 (thorough 1 and 2)
+  Updates over the 12 events Update(target <- source, overwrite) followed by
+  ONE in-place edit by the caller of the correlation an object holds for a
+  group: 3 objects x the 2 groups of propane x 8 mutation routes of the
+  correlation (delete the lowest / an absent / every heat capacity point,
+  delete H_ref, delete S_ref, write a point into the public mapping, widen the
+  range, merge in the same group of the next object with overwrite).  The edit
+  is an operation on ONE library object: every other object must be what it
+  was before it, and every loaded library that was neither a target nor
+  edited must still equal a fresh load and estimate as in a fresh process.  A
+  witness carries every plan its process had executed;
+* environment programs: before each load of a shipped library BY NAME the
+  caller sets pgradd_DATA_DIR to one of 7 values (removed; empty; the bundled
+  directory; a byte-identical relocated copy; a path that does not exist; a
+  regular file; an existing directory without libraries): all 2-sequences of
+  (value, library) steps (quick: 1 library, 49 sequences; thorough: 2
+  libraries, and all 3-sequences over one), EACH SEQUENCE IN A PROCESS OF ITS
+  OWN (a fork of a worker that has imported the package and done nothing
+  else - the resolved data directory is process-wide state that nothing in
+  the API resets).  Until an existing directory has been in force at a load,
+  a load must be exactly what a fresh process started with the value now in
+  force gives (refused with the same exception type, or the same contents);
+  afterwards the outcome class is demanded where a fresh process and the
+  documented once-only resolution agree, and a successful load must equal a
+  fresh load.  After every load every live library is dumped and the new one
+  decomposes, estimates and evaluates, judged by fresh-process baselines run
+  under the same value of the variable.
 """
 import hashlib
 import inspect
@@ -69,6 +101,7 @@ from ..explore import BFS
 from .. import REPO, VERIF
 from ..domains import w3_c15 as W3
 from ..domains import w4_c15 as W4
+from ..domains import w5_c15 as W5
 
 TWO_HASH_SEEDS = ('thorough',)   # tiers in which the space is walked under a second PYTHONHASHSEED
 LEVEL = 'model_checking'
@@ -117,6 +150,22 @@ for _t in DEPTH:
                       '2- and 3-sequences', 'the 6 ordered pairs', '2- and 3-sequences')
                      if _t == 'thorough' else
                      ('', '2-sequences', 'the 3 two-element subsets', '2-sequences')))
+for _t in DEPTH:
+    BOUND[_t] += ('; edit programs: %s of {synA, synB, synK} plus a receiver made with '
+                  'the constructor, all sequences of %s over the 12 Update events followed '
+                  'by one of 48 in-place edits of a held correlation (3 objects x 2 groups '
+                  'x 8 mutation routes), every other object compared before / after the '
+                  'edit, every untouched loaded library dumped and used for a full '
+                  'estimate of propane; environment programs: 7 values of pgradd_DATA_DIR '
+                  '(removed, empty, bundled, relocated copy, missing, regular file, '
+                  'directory without libraries) x %s, all 2-sequences of (value, load by '
+                  'name) steps%s, one process per sequence, every load judged, every live '
+                  'library dumped after every load and each new one used for a full '
+                  'estimate of propane'
+                  % (('the 6 ordered pairs', '1 or 2 Updates', '{XieGA2022, BensonGA}',
+                      ' plus all 3-sequences over XieGA2022')
+                     if _t == 'thorough' else
+                     ('the 3 two-element subsets', '1 Update', '{XieGA2022}', '')))
 RULE = ('explicit-state BFS: from every state every enabled event is executed '
         'on freshly rebuilt real objects; observations are compared with '
         'fresh-process baselines of the same logical request.  A transition is '
@@ -127,7 +176,10 @@ RULE = ('explicit-state BFS: from every state every enabled event is executed '
         'per shard, every event judged by the same baselines.  The prefix / '
         'rewrite / merge-program families likewise: the plans of a shard run one '
         'after the other in one process, each on a world of its own (rewrite: on '
-        'a path of its own), and a witness carries all plans executed so far')
+        'a path of its own), and a witness carries all plans executed so far.  Edit '
+        'programs likewise.  Environment programs: each plan runs in a forked copy '
+        'of a worker that has only imported the package, so every plan starts '
+        'from the process-wide state of a fresh process; its witness is the plan')
 ASSUMPTIONS = ['canonical state = digest of every live library (contents, '
                'uncertainty block, scheme names/remaps, remembered molecule), the '
                'decompositions and estimates made, plus a generic digest of all '
@@ -158,7 +210,26 @@ ASSUMPTIONS = ['canonical state = digest of every live library (contents, '
                '(library, molecule) baseline process made before doing anything else',
                'within one shard of the prefix family the 20 pairs (p, q1..q20) share '
                'a process whose first load is p: the k-th pair runs after the loads '
-               'of the k-1 earlier pairs (part of its witness)']
+               'of the k-1 earlier pairs (part of its witness)',
+               'edit programs: an in-place edit of a correlation reached through '
+               'library[group][\'thermochem\'] is an operation on that library object '
+               'only; what the edited object holds afterwards (and whether a refused '
+               'edit left it intact) is not judged, only that no OTHER object changed '
+               'and that untouched loaded libraries still behave as freshly loaded',
+               'environment programs: a process that has imported the package and '
+               'called nothing is taken to carry the process-wide state of a fresh '
+               'process (plans run in forks of such a process; baselines in spawned '
+               'interpreters)',
+               'environment programs: the package documents that the data directory '
+               'is resolved once per process (the first value naming an existing '
+               'directory is kept).  Where that and a fresh process started with the '
+               'current value would disagree about success (the variable was changed '
+               'after an existing directory had been in force at a load) the outcome '
+               'class of the load is not judged; its contents, if it succeeds, are',
+               'environment programs: all directories that hold libraries hold the '
+               'same bytes (the bundled tree and a copy), so a successful load is '
+               'compared with the fresh load under the value now in force if that '
+               'names libraries, else under the first value that did']
 MANIFEST = dict(
     technique='explicit-state BFS over API histories on the real objects, '
               'fresh-process baselines as oracle, stateless cross-check',
@@ -179,7 +250,14 @@ MANIFEST = dict(
          'of that path (scheme, library or included file edited); merge '
          'programs with and without overwrite over two loaded libraries and a '
          'constructor-made receiver, where only the target of a merge may '
-         'change.',
+         'change; edit programs, where after one or two merges the caller '
+         'edits in place a correlation held by one library (each mutation '
+         'route of the correlation) and no other library may change or stop '
+         'behaving as freshly loaded; environment programs, where the '
+         'variable naming the data directory takes each of 7 values (valid, '
+         'missing, not a directory, without libraries) before each load by '
+         'name, every sequence in a process of its own, and a load must not '
+         'depend on loads - failed or not - made under earlier values.',
     note='Recorded finding K1 (stale elemental reference) is reported as a '
          'known finding; every other difference is a violation.',
     ref='5/C15')
@@ -246,8 +324,31 @@ def syn_dir():
             for n, t in files.items():
                 with open(os.path.join(d, sub, n), 'w') as f:
                     f.write(t)
+        # fifth wave: what pgradd_DATA_DIR is pointed at (a byte-identical copy of
+        # the shipped libraries used, an existing directory without libraries,
+        # a regular file; 'missing' is never created)
+        import shutil
+        env = os.path.join(d, 'envdata')
+        os.makedirs(os.path.join(env, 'hollow'))
+        for L in W5.ENV_LIBS_ALL:
+            shutil.copytree(os.path.join(REPO, 'pgradd', 'data', L),
+                            os.path.join(env, 'reloc', L))
+        with open(os.path.join(env, 'afile'), 'w') as f:
+            f.write('not a directory\n')
         _SYN_DIR['d'] = d
     return _SYN_DIR['d']
+
+
+def env_value(v):
+    """The text pgradd_DATA_DIR is set to for the value name v (None: the
+    variable is removed)."""
+    env = os.path.join(syn_dir(), 'envdata')
+    return {'unset': None, 'empty': '',
+            'bundled': os.path.join(REPO, 'pgradd', 'data'),
+            'reloc': os.path.join(env, 'reloc'),
+            'missing': os.path.join(env, 'no', 'such', 'directory'),
+            'file': os.path.join(env, 'afile'),
+            'hollow': os.path.join(env, 'hollow')}[v]
 
 
 def lib_arg(L, base=None):
@@ -277,6 +378,8 @@ def corr_digest(k):
     rng = k.get_range()
     return (type(k).__name__, r12(k.ND_H_ref) if k.ND_H_ref is not None else None,
             r12(k.ND_S_ref) if k.ND_S_ref is not None else None,
+            # del_ND_Cp() leaves None behind: spelled as itself, not as 'no points'
+            None if k.ND_Cp_data is None else
             tuple(sorted((r12(T), r12(v)) for T, v in k.ND_Cp_data.items())),
             None if rng is None else (r12(rng[0]), r12(rng[1])), r12(k.T_ref))
 
@@ -467,6 +570,53 @@ def _apply(world, ev):
         V = world.slots[ev[1]]
         world.libs.append(dict(obj=lib, ident=(V,), family=scheme_family(V), last=None))
         return ['loaded']
+    if kind == 'envload':
+        # the caller sets (or removes) pgradd_DATA_DIR, then loads a shipped
+        # library by name
+        val = env_value(ev[1])
+        if val is None:
+            os.environ.pop(W5.ENVVAR, None)
+        else:
+            os.environ[W5.ENVVAR] = val
+        try:
+            lib = GroupLibrary.Load(ev[2])
+        except Exception as ex:      # noqa
+            return ['exc', type(ex).__name__]
+        world.libs.append(dict(obj=lib, ident=('%s@%s' % (ev[2], ev[1]),), family=ev[2],
+                               last=None))
+        return ['ok']
+    if kind == 'edit':
+        # the caller edits, in place, the correlation library ev[1] holds for
+        # group ev[2], through the mutation route ev[3]
+        try:
+            c = world.libs[ev[1]]['obj'][ev[2]]['thermochem']
+            op = ev[3]
+            if op == 'del_cp_first':
+                c.del_ND_Cp(min(c.ND_Cp_data))
+            elif op == 'del_cp_absent':
+                c.del_ND_Cp(W5.T_ABSENT)
+            elif op == 'del_cp_all':
+                c.del_ND_Cp()
+            elif op == 'del_h':
+                c.del_ND_H_ref()
+            elif op == 'del_s':
+                c.del_ND_S_ref()
+            elif op == 'put_cp':
+                c.ND_Cp_data[W5.T_NEW] = W5.CP_NEW
+            elif op == 'widen':
+                c.set_range(W5.RANGE_WIDE)
+            elif op == 'merge_in':
+                other = world.libs[(ev[1] + 1) % len(world.libs)]['obj']
+                c.update(other[ev[2]]['thermochem'], overwrite=True)
+            else:
+                raise ValueError(ev)
+            return ['ok']
+        except ValueError:
+            if ev[3] not in W5.EDIT_OPS:
+                raise
+            return ['exc', 'ValueError']
+        except Exception as ex:      # noqa
+            return ['exc', type(ex).__name__]
     if kind == 'new':
         # a receiver made with the constructor, from the scheme of library ev[1]
         L = world.libs[ev[1]]
@@ -642,7 +792,13 @@ req = json.loads(%(req)r)
 w = c15.World()
 out = {}
 for L in req['ident'][:1]:
-    c15.apply(w, ('load', L))
+    if '@' in L:
+        # a shipped library loaded by name under a value of pgradd_DATA_DIR
+        out['load'] = c15.apply(w, ('envload', L.split('@')[1], L.split('@')[0]))
+        if out['load'][0] != 'ok':
+            real.write(json.dumps(out)); real.flush(); os._exit(0)
+    else:
+        c15.apply(w, ('load', L))
 for L in req['ident'][1:]:
     c15.apply(w, ('load', L))
     out['merge'] = c15.apply(w, ('merge', 0, len(w.libs) - 1))
@@ -978,6 +1134,9 @@ def requests(tier):
     for L in W4.MERGE_LIBS:
         reqs.append(((L,), None, None))
         reqs.append(((L,), W4.MERGE_MOL, None))
+    # fifth-wave families (the edit programs use the merge programs' requests)
+    for v, L in W5.env_steps(tier):
+        reqs.append((('%s@%s' % (L, v),), W5.ENV_MOL, None))
     seen, out = set(), []
     for r in reqs:
         if r not in seen:
@@ -1279,7 +1438,184 @@ def play_merge(R, plan):
     R.transitions += len(hist)
 
 
-PLAYERS = {'prefix': play_prefix, 'rewrite': play_rewrite, 'mergeseq': play_merge}
+# ------------------------------------------------------------ fifth-wave families
+
+def play_edit(R, plan):
+    """plan = dict(libs=[X, Y], upds=[[target, source, overwrite], ...],
+    edit=[object, group, route]) over the objects 0 = Load(X), 1 = Load(Y),
+    2 = GroupLibrary(scheme of 0).  After the Updates (each of which must
+    leave every object but its target unchanged) the caller edits, in place,
+    the correlation one object holds for a group.  That is an operation on
+    that object alone: every OTHER object must be what it was before the
+    edit, and each loaded library that has been neither a target nor edited
+    must still equal a fresh load and decompose / estimate / evaluate as in a
+    fresh process."""
+    hist = (('load', plan['libs'][0]), ('load', plan['libs'][1]), ('new', 0))
+    w = rebuild(hist)
+    touched = set([2])
+    for t, s, ow in plan['upds']:
+        ev = ('upd', t, s, ow)
+        before = [lib_digest(l['obj']) for l in w.libs]
+        obs = apply(w, ev)
+        R.evals += 1
+        R.nontrivial += 1
+        R.outcomes['editseq:upd:%s' % ':'.join(map(str, obs))] += 1
+        for i, l in enumerate(w.libs):
+            if i != t and lib_digest(l['obj']) != before[i]:
+                R.violation('merge-changed-another-library', 'after %s, Update(%d <- %d, '
+                            'overwrite=%s) changed library %d' % (hist, t, s, bool(ow), i), None)
+        hist = hist + (ev,)
+        touched.add(t)
+    e, g, op = plan['edit']
+    ev = ('edit', e, g, op)
+    before = [lib_digest(l['obj']) for l in w.libs]
+    obs = apply(w, ev)
+    R.evals += 1
+    R.nontrivial += 1
+    R.outcomes['editseq:edit:%s:%s' % (op, ':'.join(map(str, obs)))] += 1
+    for i, l in enumerate(w.libs):
+        if i != e and lib_digest(l['obj']) != before[i]:
+            R.violation('edit-changed-another-library', 'after %s, the caller\'s in-place '
+                        'edit %s of the correlation library %d holds for %s changed '
+                        'library %d' % (hist, op, e, g, i), None)
+    hist = hist + (ev,)
+    touched.add(e)
+    for i in (0, 1):
+        if i not in touched:
+            checked(R, w, ('dump', i), hist, 'editseq')
+            hist = observe_fully(R, w, i, W4.MERGE_MOL, hist, 'editseq')
+    R.traces += 1
+    R.transitions += len(hist)
+
+
+def edit_plans(libs, target, tier):
+    """All sequences of k Updates (k in W5.EDIT_UPDATES) whose first Update
+    has the given target, each followed by every edit event."""
+    import itertools
+    upds = W4.merge_events()
+    out = []
+    for k in W5.EDIT_UPDATES[tier]:
+        for seq in itertools.product(upds, repeat=k):
+            if seq[0][0] != target:
+                continue
+            for ed in W5.edit_events():
+                out.append(dict(libs=list(libs), upds=[list(u) for u in seq], edit=list(ed)))
+    return out
+
+
+def play_env(R, plan):
+    """plan = list of [value, library]: before each load of a shipped library
+    by name the caller sets pgradd_DATA_DIR to the value (or removes it).
+    Each load is judged by W5.EnvModel (as a fresh process started with the
+    value now in force, until an existing directory has been in force at a
+    load; afterwards by outcome class where a fresh process and the
+    documented once-only resolution agree).  After every load every live
+    library must dump as a fresh load, and the new one decomposes, estimates
+    and evaluates as in a fresh process.  To be run in a process that has
+    imported the package and done nothing else."""
+    w = World()
+    hist = ()
+    model = W5.EnvModel()
+    for v, L in plan:
+        ev = ('envload', v, L)
+        mode, ref = model.expect(v)
+        n = len(w.libs)
+        obs = apply(w, ev)
+        R.evals += 1
+        if hist:
+            R.nontrivial += 1
+        base = baseline(('%s@%s' % (L, ref),), W5.ENV_MOL).get('load')
+        if mode == 'as-fresh':
+            bad = obs != base
+        elif mode in ('ok', 'exc'):
+            bad = obs[0] != mode
+        else:
+            bad = False
+        R.outcomes['envseq:load:%s:%s' % (mode, 'DIFFERS' if bad else obs[0])] += 1
+        if bad:
+            R.violation('load-differs-after-environment-history',
+                        'after %s, Load(%r) with %s %s gave %r; %s' % (
+                            hist, L, W5.ENVVAR,
+                            'removed' if env_value(v) is None else '= %r' % env_value(v), obs,
+                            ('a fresh process started with that value gives %r' % (base,))
+                            if mode == 'as-fresh' else
+                            'a fresh process and the once-only resolution both give %r' % mode),
+                        None)
+        hist = hist + (ev,)
+        model.loaded(v)
+        if len(w.libs) > n:
+            # all directories of kind 'data' hold the same bytes: the library is
+            # judged as the fresh load under the reference value
+            w.libs[-1]['ident'] = ('%s@%s' % (L, ref),)
+        for i in range(len(w.libs)):
+            checked(R, w, ('dump', i), hist, 'envseq')
+        if len(w.libs) > n:
+            hist = observe_fully(R, w, len(w.libs) - 1, W5.ENV_MOL, hist, 'envseq')
+    R.traces += 1
+    R.transitions += len(hist)
+
+
+def in_child(player, plan):
+    """Run one plan in a forked copy of this process - which must have done
+    nothing but import the package - and return the packed Result."""
+    import traceback
+    r, wfd = os.pipe()
+    pid = os.fork()
+    if pid == 0:
+        try:
+            os.close(r)
+            Rp = Result()
+            player(Rp, plan)
+            blob = json.dumps(Rp.pack(), default=str).encode()
+        except BaseException:      # noqa
+            blob = json.dumps(dict(crash=traceback.format_exc()[-1500:])).encode()
+        try:
+            with os.fdopen(wfd, 'wb') as f:
+                f.write(blob)
+        finally:
+            os._exit(0)
+    os.close(wfd)
+    chunks = []
+    with os.fdopen(r, 'rb') as f:
+        while True:
+            c = f.read(65536)
+            if not c:
+                break
+            chunks.append(c)
+    os.waitpid(pid, 0)
+    out = json.loads(b''.join(chunks).decode() or '{"crash": "child wrote nothing"}')
+    if 'crash' in out:
+        raise RuntimeError('plan %r crashed in its process: %s' % (plan, out['crash']))
+    return out
+
+
+def run_env_plans(R, plans):
+    """Each plan in a process of its own: a fork of this one, which imports the
+    package here and never loads, decomposes or estimates anything itself.
+    A witness is the one plan (replayed in the fresh replay process)."""
+    import pgradd.ThermoChem   # noqa
+    from pgradd.GroupAdd.Library import GroupLibrary   # noqa
+    from rdkit import Chem   # noqa
+    for plan in plans:
+        out = in_child(play_env, plan)
+        R.evals += out['evals']
+        R.nontrivial += out['nontrivial']
+        R.outcomes.update(out['outcomes'])
+        R.traces += out['traces']
+        R.transitions += out['transitions']
+        for v in out['violations']:
+            wit = dict(kind='plans', family='envseq', key=v['key'], plans=[plan])
+            for _ in range(v['count']):
+                R.violation(v['key'], v['msg'], wit)
+    R.extra['envseq_plans'] += len(plans)
+    R.extra['envseq_processes'] += len(plans)
+    if plans:
+        R.sample(dict(family='envseq', plans=len(plans), first_plan=plans[0],
+                      last_plan=plans[-1]), limit=1)
+
+
+PLAYERS = {'prefix': play_prefix, 'rewrite': play_rewrite, 'mergeseq': play_merge,
+           'editseq': play_edit, 'envseq': play_env}
 
 
 def run_plans(R, family, plans):
@@ -1348,6 +1684,9 @@ def shards(tier, seed):
     out += [('prefix', L, base, table) for L in W4.PREFIX_LIBS]
     out += [('rewrite', base, table)]
     out += [('mergeseq', libs, base, table) for libs in W4.merge_worlds(tier)]
+    out += [('editseq', libs, t, base, table) for libs in W4.merge_worlds(tier)
+            for t in (0, 1, 2)]
+    out += [('envseq', step, base, table) for step in W5.env_steps(tier)]
     return out
 
 
@@ -1392,6 +1731,10 @@ def run_shard(shard, tier):
         run_plans(R, 'rewrite', rewrite_plans(tier))
     elif shard[0] == 'mergeseq':
         run_plans(R, 'mergeseq', merge_plans(shard[1], tier))
+    elif shard[0] == 'editseq':
+        run_plans(R, 'editseq', edit_plans(shard[1], shard[2], tier))
+    elif shard[0] == 'envseq':
+        run_env_plans(R, W5.env_plans(shard[1], tier))
     else:
         run_stateless(R, tuple(shard[1]), tier)
     R.extra['max_fresh_process_baselines'] = len(_BASE)
